@@ -246,3 +246,72 @@ def i4004_enders():
                                  text=lambda t: t, code=lambda a, ta: bytes([0x40 | (ta >> 8), ta & 0xff]))),
         ('jin', mk_jin),
     ]
+
+
+# ---------------------------------------------------------------------------
+# Toshiba TLCS-870 (87C00): only what the boundary programs of C15 need (TLCS-870 series instruction set:
+# NOP 00, RET 05, JRS T/F,a 80+d5 / A0+d5, JR cc,a D0+cc d8, JR a FB d8; the target is relative to the
+# address of the instruction + 2 in all three jump forms)
+
+T870_CC = {'z': 0, 'nz': 1, 'cs': 2, 'cc': 3, 'le': 4, 'gt': 5, 't': 6, 'f': 7,
+           'eq': 0, 'ne': 1, 'lt': 2, 'ge': 3}      # the aliases are those of the golden test t_87c800
+
+
+def t870_nop():
+    return dict(mn='nop', mode='fixed', len=1, flow='seq', target=None, text=lambda t: '', code=lambda a, ta: b'\x00')
+
+
+def t870_ret():
+    return dict(mn='ret', mode='fixed', len=1, flow='stop', target=None, text=lambda t: '', code=lambda a, ta: b'\x05')
+
+
+def t870_jrs(cond):
+    base = 0x80 if cond == 't' else 0xa0
+    return dict(mn='jrs', mode='rel5/' + cond, len=1, flow='cond', target='rel5',
+                text=lambda t: '%s,%s' % (cond, t), code=lambda a, ta: bytes([base | ((ta - (a + 2)) & 0x1f)]))
+
+
+def t870_jr(cond):
+    if cond is None:
+        return dict(mn='jr', mode='rel8', len=2, flow='jump', target='rel8',
+                    text=lambda t: t, code=lambda a, ta: bytes([0xfb, (ta - (a + 2)) & 0xff]))
+    return dict(mn='jr', mode='rel8/' + cond, len=2, flow='cond', target='rel8',
+                text=lambda t: '%s,%s' % (cond, t), code=lambda a, ta: bytes([0xd0 | T870_CC[cond], (ta - (a + 2)) & 0xff]))
+
+
+# ---------------------------------------------------------------------------
+# helpers for the boundary programs
+
+def m6800_nop():
+    return _fixed('nop', 0x01)
+
+
+def m6800_rts():
+    return _fixed('rts', 0x39, 'stop')
+
+
+def m6800_branch(mn):
+    if mn == 'bra':
+        return _rel('bra', 0x20, 'jump')
+    if mn == 'bsr':
+        return _rel('bsr', 0x8d, 'call')
+    return _rel(mn, M68_BCC[mn], 'cond')
+
+
+def i4004_nop():
+    return dict(mn='nop', mode='fixed', len=1, flow='seq', target=None, text=lambda t: '', code=lambda a, ta: b'\x00')
+
+
+def i4004_bbl(v):
+    return dict(mn='bbl', mode='imm4', len=1, flow='stop', target=None, text=lambda t: '%d' % v,
+                code=lambda a, ta: bytes([0xc0 | v]))
+
+
+def i4004_jcn(c, mn='jcn'):
+    return dict(mn=mn, mode='cond%d' % c, len=2, flow='cond', target='page8',
+                text=lambda t: '%d,%s' % (c, t), code=lambda a, ta: bytes([0x10 | c, ta & 0xff]))
+
+
+def i4004_isz(n):
+    return dict(mn='isz', mode='reg,page8', len=2, flow='cond', target='page8',
+                text=lambda t: 'r%x,%s' % (n, t), code=lambda a, ta: bytes([0x70 | n, ta & 0xff]))
